@@ -19,4 +19,5 @@ import Rtcp.Props.Fast
 import Rtcp.Props.FastWrite
 import Rtcp.Props.CompoundE2E
 import Rtcp.Props.NestedE2E
+import Rtcp.Props.Written
 import Rtcp.Props.Pins
